@@ -155,32 +155,84 @@ def v1Fields (fieldLoader : S → JVal → LRes) (eff : MetaCfg) (ci : ClassInfo
           let (kw, n) ← v1Fields fieldLoader eff ci kvs r
           pure ((fi.name, y) :: kw, n + 1)
 
-/-- all keys the generated function knows about (`aliases`) -/
+/-! ### unknown-key accounting of the generated class function
+
+`i` counts the constructor fields found in the document (plus the tag key of a tagged class when it is present);
+`len(o) != i` is the fast-path test for "the document holds a key I do not know". -/
+
+/-- the constructor fields the generated function loops over (`cls_init_fields` minus the catch-all field) -/
+def v1InitFields (ci : ClassInfo) : List FieldInfo := ci.fields.filter (fun f => f.init && !f.isCatchAll)
+
+def v1TagKey (eff : MetaCfg) : S := eff.tagKey.getD Generated.tagKey.toList
+
+/-- `expect_tag_as_unknown_key`: the class carries a tag and no *constructor* field is named like the tag key
+(an `init=False` attribute of that name does not count) -/
+def v1ExpectTag (eff : MetaCfg) (ci : ClassInfo) : Bool := eff.tag.isSome && !(initFieldNames ci).contains (v1TagKey eff)
+
+/-- all keys the generated function knows about (`aliases`): the whitelisted tag key and every key a constructor
+field is looked up under -/
 def v1KnownKeys (eff : MetaCfg) (ci : ClassInfo) : List S :=
-  let ks := (ci.fields.filter (fun f => f.init && !f.isCatchAll)).foldl (fun acc f => acc ++ v1Keys eff f) []
-  let tagKey := eff.tagKey.getD Generated.tagKey.toList
-  if eff.tag.isSome && !(initFieldNames ci).contains tagKey then tagKey :: ks else ks
+  (if v1ExpectTag eff ci then [v1TagKey eff] else []) ++ (v1InitFields ci).flatMap (v1Keys eff)
+
+def v1HasCatchAll (ci : ClassInfo) : Bool := ci.fields.any (·.isCatchAll)
+
+/-- does the generated function count matched keys at all (`pre_assign`) -/
+def v1Counting (eff : MetaCfg) (ci : ClassInfo) : Bool :=
+  v1HasCatchAll ci || eff.v1OnUnknown == some .raise || eff.v1OnUnknown == some .warn
+
+/-- `i` after the field loop, given the number of constructor fields found. The `if tag_key in o: i += 1` line sits inside
+the `if cls_init_fields:` block: a class without constructor fields never counts its tag key. -/
+def v1Matched (eff : MetaCfg) (ci : ClassInfo) (kvs : List (S × JVal)) (found : Nat) : Nat :=
+  found + (if v1ExpectTag eff ci && v1Counting eff ci && !(v1InitFields ci).isEmpty
+              && kvs.any (fun kv => kv.1 == v1TagKey eff) then 1 else 0)
+
+/-- the pairs of the document whose key is not known, in document order -/
+def v1Extra (eff : MetaCfg) (ci : ClassInfo) (kvs : List (S × JVal)) : List (S × JVal) :=
+  kvs.filter (fun kv => !(v1KnownKeys eff ci).contains kv.1)
+
+/-- `cls(**kw)` and the MissingFields conversion, for constructor arguments that already include the catch-all field -/
+def finishKw (ci : ClassInfo) (kw : List (S × PyVal)) : LRes :=
+  match missingInit ci (kw.map (·.1)) with
+  | [] => do
+      let fs ← buildFields kw ci.fields
+      pure (.inst ci fs)
+  | m :: ms => .error (.missingFields ci.name ((m :: ms).map (·.name)))
+
+/-- the catch-all argument of the v1 function: a catch-all field without a plain default (none, or a default_factory) is
+always passed (`{}` when `len(o) == i`); one with a plain default is assigned only when `len(o) != i` — then whatever the
+comprehension yields, even `{}` -/
+def v1WithCatchAll (ci : ClassInfo) (kwargs : List (S × PyVal)) (lenDiffers : Bool) (ca : List (PyVal × PyVal)) : List (S × PyVal) :=
+  match ci.fields.find? (·.isCatchAll) with
+  | none => kwargs
+  | some cf =>
+    if cf.dflt.isNone || cf.isFactory || lenDiffers then kwargs ++ [(cf.name, PyVal.map .dict (if lenDiffers then ca else []))]
+    else kwargs
+
+/-- what follows the field loop: UnknownKeysError under RAISE, else the catch-all comprehension and `cls(...)` -/
+def v1Finish (eff : MetaCfg) (ci : ClassInfo) (kvs : List (S × JVal)) (kwargs : List (S × PyVal)) (found : Nat) : LRes :=
+  if !v1HasCatchAll ci && eff.v1OnUnknown == some .raise && kvs.length != v1Matched eff ci kvs found then
+    .error (.unknownKeys ci.name ((v1Extra eff ci kvs).map (·.1)))
+  else
+    finishKw ci (v1WithCatchAll ci kwargs (kvs.length != v1Matched eff ci kvs found)
+      ((v1Extra eff ci kvs).map (fun kv => (PyVal.str kv.1, kv.2.toPy))))
 
 /-- generated `__dataclass_wizard_from_dict_X__(o)` -/
 def v1ClassWith (fieldLoader : S → JVal → LRes) (eff : MetaCfg) (ci : ClassInfo) : JVal → LRes
   | .null => .error (.missingData none none ci.name)
   | .dict kvs => do
       let (kwargs, found) ← v1Fields fieldLoader eff ci kvs ci.fields
-      let tagKey := eff.tagKey.getD Generated.tagKey.toList
-      let expectTag := eff.tag.isSome && !(initFieldNames ci).contains tagKey
-      let known := v1KnownKeys eff ci
-      let hasCatchAll := ci.fields.any (·.isCatchAll)
-      let counting := hasCatchAll || eff.v1OnUnknown == some .raise || eff.v1OnUnknown == some .warn
-      let i := found + (if expectTag && counting && kvs.any (fun kv => kv.1 == tagKey) then 1 else 0)
-      let extra := kvs.filter (fun kv => !known.contains kv.1)
-      if !hasCatchAll && eff.v1OnUnknown == some .raise && kvs.length != i then
-        .error (.unknownKeys ci.name (extra.map (·.1)))
-      else
-        let ca : List (PyVal × PyVal) := if kvs.length == i then [] else extra.map (fun kv => (PyVal.str kv.1, kv.2.toPy))
-        finishClass ci kwargs ca (.dict kvs)
+      v1Finish eff ci kvs kwargs found
   | _ =>
     -- `o.get(...)` fails on the first field's lookup: `field` already names that field when `re_raise` runs
-    .error (.parse (some ci.name) (((ci.fields.filter (fun f => f.init && !f.isCatchAll)).head?).map (·.name)))
+    .error (.parse (some ci.name) (((v1InitFields ci).head?).map (·.name)))
+
+/-- a Union member that is a dataclass carrying a tag (explicit or auto-assigned) -/
+def isTaggedMember (cfg : Option MetaCfg) : Ty → Bool
+  | .cls ci _ => (memberTag cfg ci).isSome
+  | _ => false
+
+/-- at least one member dataclass of the Union carries a tag: the generated helper then reads `v1[tag_key]` first -/
+def v1AnyTagged (cfg : Option MetaCfg) (ts : List Ty) : Bool := ts.any (isTaggedMember cfg)
 
 mutual
 /-- the value of the expression v1 generates for annotation `t`, applied to `o` -/
@@ -211,7 +263,7 @@ def loadV1 (std : Std) (cfg : Option MetaCfg) : Ty → JVal → LRes
       else
         -- tag block
         let tagKey := (cfg.bind (·.tagKey)).getD Generated.tagKey.toList
-        let tagged := ts.any (fun t => match t with | .cls ci _ => (memberTag cfg ci).isSome | _ => false)
+        let tagged := v1AnyTagged cfg ts
         let tagv : Option JVal := match o with
           | .dict kvs => (kvs.find? (fun kv => kv.1 == tagKey)).map (·.2)
           | _ => none
